@@ -189,15 +189,18 @@ def compare(case, system, lattice, bands, phonon=False, tie=None, labels=()):
         idx = np.unravel_index(np.argmax(err), err.shape)
         raise Violation(f"{kind}-corner-energies", f"corner {tuple(int(i) for i in idx)}: got {got[idx]:.10g}, band energy at "
                         f"that corner k-point is {want[idx]:.10g} (max |diff| {err.max():.2e}); K={np.array(K.K).tolist()}")
-    if case["slowref"] and m.all():
+    if case["slowref"]:
         slow = np.array(dk.E_K_corners_parallel_test() if par else dk.E_K_corners_tetra_test())
-        if slow.shape != got.shape or reldiff(slow, got) > TOL:
+        if slow.shape != got.shape:
+            raise Violation(f"{kind}-slow-reference", f"E_K_corners_{kind}_test() has shape {slow.shape}, not {got.shape}")
+        errs = np.abs(slow - got) * m
+        if errs.max(initial=0.0) > TOL * scale:
             raise Violation(f"{kind}-slow-reference", f"E_K_corners_{kind}_test() differs from E_K_corners_{kind}() by "
-                            f"{reldiff(slow, got):.2e}")
+                            f"{errs.max():.2e}")
     # how much do corners differ from the centre (non-triviality) -- on the unselected reference
     spread = float(np.max(np.abs(Eco.reshape(Eco.shape[0], -1, Eco.shape[-1]) - Ec[:, None, :]))) if Eco.size else 0.0
     lab = list(labels) + clabels + [("window" if win is not None else None), ("E_K-first" if efirst else "corners-first"),
-                                    ("slowref" if case["slowref"] and m.all() else None),
+                                    ("slowref" if case["slowref"] else None),
                                     ("masked-entries" if not m.all() else None),
                                     "NKFFT>1" if np.prod(case["NKFFT"]) > 1 else "NKFFT=1"]
     return ok(spread > 1e-6, *lab)
@@ -206,8 +209,9 @@ def compare(case, system, lattice, bands, phonon=False, tie=None, labels=()):
 # ------------------------------------------------------------------------------------------------
 # real-space systems (electrons and phonons)
 
+_model_st = wbsys.model_params_st(max_wann=4, max_npairs=6, rmax=2, keys=("Ham",))
 sysR_st = st.fixed_dictionaries(dict(
-    model=wbsys.model_params_st(max_wann=4, max_npairs=6, rmax=2, keys=("Ham",)),
+    model=st.one_of(_model_st, _model_st.filter(lambda p: len(p["R"]) >= 1), _model_st.filter(lambda p: len(p["R"]) >= 2)),
     phonon=st.sampled_from([None, None, "psd", "psd", "indefinite"]), **common_fields()))
 
 
